@@ -415,6 +415,12 @@ impl<'t, D: Distance> ImmutableSubsetLeafs<'t, D> {
     /// Randomly selects two leafs verified to be different.
     pub fn choose_two<R: Rng>(&self, rng: &mut R) -> heed::Result<Option<[Leaf<'t, D>; 2]>> {
         let indexes = index::sample(rng, self.subset.len() as usize, 2);
+        #[cfg(feature = "verif-hooks")]
+        for i in 0..2 {
+            if let Some(item_id) = self.subset.select(indexes.index(i) as u32) {
+                crate::verif::emit(crate::verif::Event::Chosen(item_id));
+            }
+        }
         let first = match self.subset.select(indexes.index(0) as u32) {
             Some(item_id) => self.leafs.get(item_id)?,
             None => None,
@@ -433,6 +439,10 @@ impl<'t, D: Distance> ImmutableSubsetLeafs<'t, D> {
         } else {
             let ubound = (self.subset.len() - 1) as u32;
             let index = rng.gen_range(0..=ubound);
+            #[cfg(feature = "verif-hooks")]
+            if let Some(item_id) = self.subset.select(index) {
+                crate::verif::emit(crate::verif::Event::Chosen(item_id));
+            }
             match self.subset.select(index) {
                 Some(item_id) => self.leafs.get(item_id),
                 None => Ok(None),
